@@ -6,9 +6,53 @@ import (
 	"sort"
 
 	"github.com/tokenized/pkg/bitcoin"
+	"github.com/tokenized/pkg/wire"
 
 	"github.com/pkg/errors"
 )
+
+// targetFromBits decodes the compact "bits" field of a header into the target as the network does.
+// It returns false when the encoding has no valid target: negative, zero, more than 256 bits, or
+// easier than the proof of work limit.
+func targetFromBits(bits uint32) (*big.Int, bool) {
+	size := bits >> 24
+	word := bits & 0x007fffff
+
+	target := &big.Int{}
+	if size <= 3 {
+		word >>= 8 * (3 - size)
+		target.SetUint64(uint64(word))
+	} else {
+		target.SetUint64(uint64(word))
+		target.Lsh(target, uint(8*(size-3)))
+	}
+
+	if word == 0 {
+		return nil, false // zero
+	}
+	if bits&0x00800000 != 0 {
+		return nil, false // negative
+	}
+	if size > 34 || (word > 0xff && size > 33) || (word > 0xffff && size > 32) {
+		return nil, false // overflow
+	}
+	if target.Cmp(bitcoin.ConvertToDifficulty(bitcoin.MaxBits)) > 0 {
+		return nil, false // above proof of work limit
+	}
+
+	return target, true
+}
+
+// workIsValid returns true if the header's bits encode a valid target and the header's hash does
+// not exceed it.
+func workIsValid(header *wire.BlockHeader) bool {
+	target, ok := targetFromBits(header.Bits)
+	if !ok {
+		return false
+	}
+
+	return header.BlockHash().Value().Cmp(target) <= 0
+}
 
 func (b Branch) Target(ctx context.Context, height int) (*big.Int, error) {
 
